@@ -1415,5 +1415,7 @@ func episodeWallLimit() time.Duration {
 			return d
 		}
 	}
-	return 120 * time.Second
+	// (generous on purpose: on a loaded machine an episode of 30 s can take several
+	// times as long, and a watchdog kill turns a clean run into exit 2)
+	return 240 * time.Second
 }
